@@ -204,7 +204,7 @@ impl Prop for C17 {
         let base = if i < (ws.len() * 8) as u64 {
             let k = ws[i as usize % ws.len()];
             let n = gen_n(r, 32);
-            let mk = *r.pick(crate::spec::MAS);
+            let mk = crate::gen::pick_ma_kind(r);
             let mut ma = Spec::un(mk, r.range(1, 6), Spec::echo());
             gen_params(r, &mut ma, false);
             let mut s = wrap(r, k, n, Spec::echo(), Some(ma));
@@ -237,7 +237,7 @@ impl Prop for C17 {
                 });
             }
         }
-        let positive = trees.iter().any(|t| t.needs_positive_feed());
+        let sign = pick_feed_sign(r, &trees);
         let scale = *r.pick(SCALES) / 4.25;
         let n_events = r.range(20, 600);
         // per-replica feeds (twins share one)
@@ -248,7 +248,7 @@ impl Prop for C17 {
                 feeds.push(f0);
             } else {
                 let shape = r.below(SHAPES.len()) as u8;
-                feeds.push(gen_shape(r, shape, n_events + 8, scale, positive));
+                feeds.push(crate::feed::gen_signed(r, shape, n_events + 8, scale, sign));
             }
         }
         let mut cursor: Vec<usize> = vec![0; n_rep];
@@ -279,7 +279,7 @@ impl Prop for C17 {
                     cursor.push(cursor[j]);
                 } else {
                     let shape = r.below(SHAPES.len()) as u8;
-                    feeds.push(gen_shape(r, shape, n_events + 8, scale, positive));
+                    feeds.push(crate::feed::gen_signed(r, shape, n_events + 8, scale, sign));
                     feed_of.push(feeds.len() - 1);
                     cursor.push(0);
                 }
